@@ -346,16 +346,19 @@ MayMutate   == Turn \in {0, 1, 3}
 MayRequest  == Turn \in {2, 3}
 MayDiscover == Turn = 4
 
+(* (These generator predicates are written with IF rather than \/ : inside  *)
+(* an action TLC treats a disjunction (and a bounded \E) as a choice of       *)
+(* sub-actions and would produce the same successor once per true disjunct.) *)
 Interesting(p) ==
-  \/ p = <<>>
-  \/ Route(MW, st, Root, p).kind = "hit"
-  \/ Route(MW, prev, Root, p).kind = "hit"
-  \/ \E e \in (DOMAIN st.res[Root] \cup DOMAIN st.sub[Root]) \ {WkcPath, <<>>} :
-        IsPrefixOf(e, p) \/ IsPrefixOf(p, e)
+  IF p = <<>> THEN TRUE
+  ELSE IF Route(MW, st, Root, p).kind = "hit" THEN TRUE
+  ELSE IF Route(MW, prev, Root, p).kind = "hit" THEN TRUE
+  ELSE {e \in (DOMAIN st.res[Root] \cup DOMAIN st.sub[Root]) \ {WkcPath, <<>>} :
+           IsPrefixOf(e, p) \/ IsPrefixOf(p, e)} # {}
 
 Changed == {p \in asked : Short(Route(MW, prev, Root, p)) # Short(Route(MW, st, Root, p))}
 ReAsk   == IF Turn = 2 /\ asked # {} THEN (IF Changed # {} THEN Changed ELSE asked) ELSE {}
-Aimed(p) == IF ReAsk # {} THEN p \in ReAsk ELSE (Interesting(p) \/ p \in asked)
+Aimed(p) == IF ReAsk # {} THEN p \in ReAsk ELSE IF p \in asked THEN TRUE ELSE Interesting(p)
 
 ModelHosts == {<<>>, <<"v",".","e","x","a","m","p","l","e">>}
 ModelPorts == {0, 61616}
@@ -363,7 +366,10 @@ ModelPorts == {0, 61616}
 (* Mutations are biased towards the root's registrations at (prefixes of)    *)
 (* paths that were asked before; the others are thinned out at random.       *)
 Touches(s, p) == s = Root /\ p # <<>> /\ \E a \in asked : IsPrefixOf(p, a)
-Biased(s, p)  == ~WithQueries \/ asked = {} \/ Touches(s, p) \/ RandomElement(1..4) = 1
+Biased(s, p)  == IF ~WithQueries THEN TRUE
+                 ELSE IF asked = {} THEN TRUE
+                 ELSE IF Touches(s, p) THEN TRUE
+                 ELSE RandomElement(1..4) = 1
 
 AddResource(s, p, r) == MayMutate /\ Biased(s, p) /\ Do(MkOp("add", s, p, r, <<>>, NoFilter)) /\ UNCHANGED asked
 AddSite(s, p, c)     == MayMutate /\ Biased(s, p) /\ Do(MkOp("addsite", s, p, c, <<>>, NoFilter)) /\ UNCHANGED asked
